@@ -119,7 +119,11 @@ def check_ring(rep, mod, cfg, name):
             else:
                 exp = ring_spec(op, eff.params, regname)
         except (Incomplete, IRError) as e:
-            rep.incomplete('value:' + tag, 'ext-value', site, str(e))
+            if 'raw' in str(e) and 'field data' in str(e):
+                # the routine does its own 64-bit arithmetic on representations: decide it in kernel mode instead
+                kernel_fallback(rep, cfg, name, op, ps0, al, tag, site)
+            else:
+                rep.incomplete('value:' + tag, 'ext-value', site, str(e))
             continue
         except Sink as e:
             rep.refute('safety:' + tag, 'ext-safety', sink_site(e, site), str(e))
@@ -145,6 +149,42 @@ def check_ring(rep, mod, cfg, name):
         if ctx.violations:
             v = ctx.violations[0]
             rep.refute('pre:' + tag, 'callsite-precondition', site, '%s operand %s: %s' % (v['callee'], v['operand'], v['detail']))
+
+
+def kernel_fallback(rep, cfg, name, op, ps, al, tag, site):
+    """linear ring operations written with raw integer arithmetic: exact integer analysis for all 64-bit representations"""
+    from .. import kprove, kcheck
+    smod = front.module(cfg, sroa=True)
+    if op not in ('neg', 'add', 'sub') or any(kind(p) != 'ext' for p in ps):
+        rep.incomplete('value:' + tag, 'ext-value', site, 'raw integer arithmetic on representations in a routine the kernel-mode fallback does not cover')
+        return
+    names = [p.name for p in ps]
+    idx = {n: i for i, n in enumerate(names)}
+    alias = {idx[k]: idx[v] for k, v in (al or {}).items()}
+    ins = []
+    syms = {}
+    for p in ps:
+        if p.name == 'result':
+            continue
+        i = idx[p.name]
+        tgt = alias.get(i, i)
+        for j in range(3):
+            key = (tgt, j)
+            if key not in syms:
+                syms[key] = 'x%d_%d' % (tgt, j)
+                ins.append((i, 8 * j, syms[key], 'u64'))
+    ia = alias.get(idx['a'], idx['a'])
+    ib = alias.get(idx['b'], idx['b']) if 'b' in idx else None
+    specs = []
+    for j in range(3):
+        if op == 'neg':
+            specs.append(lambda A, j=j: -A[syms[(ia, j)]])
+        elif op == 'add':
+            specs.append(lambda A, j=j: A[syms[(ia, j)]] + A[syms[(ib, j)]])
+        else:
+            specs.append(lambda A, j=j: A[syms[(ia, j)]] - A[syms[(ib, j)]])
+    r = kprove.prove_cells(smod, name, len(ps), ins, [(idx['result'], 8 * j) for j in range(3)], specs, alias=alias)
+    kcheck.record(rep, 'value:' + tag, 'ext-value-kernel', site, r, '%s on raw representations: each component = exact result mod p for all 64-bit inputs' % op)
 
 
 def strip_inv(nf, ctx):
